@@ -16,6 +16,9 @@ def sh(cmd, cwd, timeout=1800):
 def main():
     a = sys.argv[1:]
     prop = None
+    race = []
+    if "--race" in a:
+        a.remove("--race"); race = ["-race"]
     if "--prop" in a:
         i = a.index("--prop"); prop = a[i + 1]; del a[i:i + 2]
     name, outdir, dest, pat, pkg = a
@@ -27,7 +30,7 @@ def main():
         demos = [f for f in os.listdir(os.path.join(outdir, "demo")) if f.endswith(".go")]
         for f in demos:
             shutil.copy(os.path.join(outdir, "demo", f), os.path.join(wt, dest, f))
-        rc, o = sh(["go", "test", "-count=1", "-vet=off", "-run", pat, pkg], wt)
+        rc, o = sh(["go", "test"] + race + ["-count=1", "-vet=off", "-run", pat, pkg], wt)
         res["demo_passes_without_change"] = rc == 0
         print("demo without change: rc=%d" % rc); print(o[-600:])
         rc, o = sh(["git", "apply", os.path.join(outdir, "patch.diff")], wt)
@@ -35,7 +38,7 @@ def main():
             print("patch does not apply:", o); sys.exit(1)
         rc, o = sh(["go", "build", "./..."], wt)
         res["builds"] = rc == 0
-        rc, o = sh(["go", "test", "-count=1", "-vet=off", "-run", pat, pkg], wt)
+        rc, o = sh(["go", "test"] + race + ["-count=1", "-vet=off", "-run", pat, pkg], wt)
         res["demo_fails_with_change"] = rc != 0
         print("demo with change: rc=%d" % rc); print(o[-1200:])
         for f in demos:
